@@ -585,21 +585,31 @@ End Parse.
 (* what a PerMessage* object does to its library handle at the end of a message *)
 Inductive end_kind :=
 | EndKeep      (* handle stays usable: zlib flush(Z_SYNC_FLUSH) / decompress(tail); snappy: nothing *)
-| EndDrop      (* self._compressor = None (bzip2) *)
-| EndFinish.   (* the library object has ended its stream but stays referenced: brotli Compressor.finish(),
-                  brotli Decompressor after the last meta-block *)
+| EndDrop      (* self._compressor = None / self._decompressor = None (bzip2; brotli since fix 444bd7d4) *)
+| EndFinish.   (* the library object has ended its stream but stays referenced.  No shipped extension does this any
+                  more: it is what permessage-brotli did before fix 444bd7d4 (Compressor.finish() / a Decompressor past
+                  its last meta-block, kept and reused) - see [disc_brotli_before_fix] *)
 
 Record discipline := {
   dc_comp_end : end_kind;
   dc_decomp_end : end_kind;
   dc_start_nct : bool;     (* start_*: `if handle is None or <no_context_takeover>` (false: `if handle is None`) *)
   dc_flush : bool;         (* end_compress_message calls the library flush/finish (false: snappy returns b"") *)
-  dc_tail : bool           (* deflate: end_compress strips the last 4 octets, end_decompress feeds 00 00 ff ff *)
+  dc_tail : bool;          (* deflate: end_compress strips the last 4 octets, end_decompress feeds 00 00 ff ff *)
+  dc_empty_guard : bool    (* decompress_message_data: `if not data: return b""` before touching the library object
+                              (bzip2 since fix 36836fb7) *)
 }.
-Definition disc_deflate := {| dc_comp_end := EndKeep; dc_decomp_end := EndKeep; dc_start_nct := true; dc_flush := true; dc_tail := true |}.
-Definition disc_bzip2 := {| dc_comp_end := EndDrop; dc_decomp_end := EndDrop; dc_start_nct := false; dc_flush := true; dc_tail := false |}.
-Definition disc_brotli := {| dc_comp_end := EndFinish; dc_decomp_end := EndFinish; dc_start_nct := true; dc_flush := true; dc_tail := false |}.
-Definition disc_snappy := {| dc_comp_end := EndKeep; dc_decomp_end := EndKeep; dc_start_nct := true; dc_flush := false; dc_tail := false |}.
+Definition disc_deflate := {| dc_comp_end := EndKeep; dc_decomp_end := EndKeep; dc_start_nct := true; dc_flush := true; dc_tail := true; dc_empty_guard := false |}.
+Definition disc_bzip2 := {| dc_comp_end := EndDrop; dc_decomp_end := EndDrop; dc_start_nct := false; dc_flush := true; dc_tail := false; dc_empty_guard := true |}.
+(* compress_brotli.py (444bd7d4): end_compress_message does finish() and `self._compressor = None`, end_decompress_message
+   `self._decompressor = None`.  start_* still read `is None or <side>_no_context_takeover`, but the handle IS None at every
+   message start: a fresh Compressor()/Decompressor() per message whatever was negotiated - brotli "context takeover"
+   no longer exists at the codec level, the negotiated flags only travel in the header. *)
+Definition disc_brotli := {| dc_comp_end := EndDrop; dc_decomp_end := EndDrop; dc_start_nct := true; dc_flush := true; dc_tail := false; dc_empty_guard := false |}.
+Definition disc_snappy := {| dc_comp_end := EndKeep; dc_decomp_end := EndKeep; dc_start_nct := true; dc_flush := false; dc_tail := false; dc_empty_guard := false |}.
+(* the two repaired disciplines as they were before the fixes (kept to state why the fixes were needed) *)
+Definition disc_brotli_before_fix := {| dc_comp_end := EndFinish; dc_decomp_end := EndFinish; dc_start_nct := true; dc_flush := true; dc_tail := false; dc_empty_guard := false |}.
+Definition disc_bzip2_before_fix := {| dc_comp_end := EndDrop; dc_decomp_end := EndDrop; dc_start_nct := false; dc_flush := true; dc_tail := false; dc_empty_guard := false |}.
 Definition disc_of (x : ext) : discipline :=
   match x with XDeflate => disc_deflate | XBzip2 => disc_bzip2 | XBrotli => disc_brotli | XSnappy => disc_snappy end.
 
@@ -684,10 +694,12 @@ Section Codec.
 
   (* decompress_message_data *)
   Definition decompress_data (p : pmce) (data : bytes) : res (pmce * bytes) :=
+    if dc_empty_guard (p_disc p) && match data with [] => true | _ => false end then Ok (p, [])   (* bzip2: `if not data: return b""` *)
+    else
     match p_decomp p with
     | HNone => Raise (ETypestate OnNone)
     | HFinished _ =>
-        (* brotli's Decompressor.process(b"") after the stream end returns b""; any data raises "decoder failed" *)
+        (* (pre-fix brotli) Decompressor.process(b"") after the stream end returns b""; any data raises "decoder failed" *)
         match data with [] => Ok (p, []) | _ :: _ => Raise (ETypestate OnFinished) end
     | HLive g st =>
         match d_feed st data with
@@ -696,8 +708,8 @@ Section Codec.
         end
     end.
 
-  (* end_decompress_message: deflate feeds the stripped tail and DISCARDS what comes out; bzip2 drops the handle;
-     brotli / snappy `pass` (the brotli decoder has seen its last meta-block: finished) *)
+  (* end_decompress_message: deflate feeds the stripped tail and DISCARDS what comes out; bzip2 and brotli drop the
+     handle; snappy `pass` *)
   Definition end_decompress (p : pmce) : res pmce :=
     if dc_tail (p_disc p)
     then match p_decomp p with
@@ -957,30 +969,44 @@ Section Codec.
     | x :: r => let '(cs1, o) := c_compress cs x in let '(cs2, os) := c_run_data cs1 r in (cs2, o :: os)
     end.
 
+  (* feeding a decompressor piece by piece *)
+  Fixpoint feed_seq (ds : DS) (pieces : list bytes) : option (DS * bytes) :=
+    match pieces with
+    | [] => Some (ds, [])
+    | c :: r => obind (d_feed ds c) (fun '(ds1, o1) => obind (feed_seq ds1 r) (fun '(ds2, o2) => Some (ds2, o1 ++ o2)))
+    end.
+  Definition nonempty (b : bytes) : bool := match b with [] => false | _ :: _ => true end.
+
   (* The assumed behaviour of the compression library ("stream law").  [R wd cs ds]: compressor state cs and
      decompressor state ds (created with window wd) are in step at a message boundary.
-       feed_nil/feed_app : a decompressor is a stream function - any segmentation of its input gives the same output
+       feed_nil : feeding nothing yields nothing and changes nothing - demanded only where the wrapper passes empty
+                  input on to the library (bz2 refuses EVERY call after end-of-stream; its wrapper guards since 36836fb7)
        new      : fresh compressor + fresh decompressor with compatible parameters are in step
        restart  : replacing the compressor by a fresh (compatible) one keeps a continuing decompressor in step
                   (a new deflate stream never refers back across its own start)
-       msg      : if in step, then the outputs of compressing the pieces of a message followed by the end-of-message
-                  flush decode to the concatenated pieces, and both ends are in step again; for deflate the flush
-                  output ends with the empty stored block 00 00 ff ff, everything before it already decodes to the
-                  whole message, and feeding the four octets afterwards is accepted *)
+       msg      : if in step, then what compressing the pieces of a message and the end-of-message flush emit decodes,
+                  fed in ANY segmentation into non-empty pieces, to the concatenated message pieces, and both ends are in
+                  step again; for deflate the flush output ends with the empty stored block 00 00 ff ff, everything before
+                  it already decodes to the whole message, and feeding the four octets afterwards is accepted.
+                  (Segmentation independence is assumed of the compressor's own output only: nothing is said about
+                  octets after the end of a stream.) *)
   Record codec_law (d : discipline) (compat : Z -> Z -> bool) (R : Z -> CS -> DS -> Prop) : Prop := {
-    law_feed_nil : forall ds, d_feed ds [] = Some (ds, []);
-    law_feed_app : forall ds a b,
-        d_feed ds (a ++ b) =
-        obind (d_feed ds a) (fun '(ds1, o1) => obind (d_feed ds1 b) (fun '(ds2, o2) => Some (ds2, o1 ++ o2)));
+    law_feed_nil : dc_empty_guard d = false -> forall ds, d_feed ds [] = Some (ds, []);
     law_new : forall wc mem wd, compat wc wd = true -> R wd (c_new wc mem) (d_new wd);
     law_restart : forall wd cs ds wc mem, R wd cs ds -> compat wc wd = true -> R wd (c_new wc mem) ds;
     law_msg : forall wd cs ds xs, R wd cs ds ->
         let '(cs1, outs) := c_run_data cs xs in
         let '(cs2, o2) := if dc_flush d then c_flush cs1 else (cs1, []) in
         if dc_tail d
-        then exists b2 ds1 ds2 junk, o2 = b2 ++ tail4 /\ d_feed ds (List.concat outs ++ b2) = Some (ds1, List.concat xs) /\
-                                     d_feed ds1 tail4 = Some (ds2, junk) /\ R wd cs2 ds2
-        else exists ds1, d_feed ds (List.concat outs ++ o2) = Some (ds1, List.concat xs) /\ R wd cs2 ds1 }.
+        then exists b2 ds1 ds2 junk,
+               o2 = b2 ++ tail4 /\
+               (forall pieces, forallb nonempty pieces = true -> List.concat pieces = List.concat outs ++ b2 ->
+                               feed_seq ds pieces = Some (ds1, List.concat xs)) /\
+               d_feed ds1 tail4 = Some (ds2, junk) /\ R wd cs2 ds2
+        else exists ds1,
+               (forall pieces, forallb nonempty pieces = true -> List.concat pieces = List.concat outs ++ o2 ->
+                               feed_seq ds pieces = Some (ds1, List.concat xs)) /\
+               R wd cs2 ds1 }.
 
   (* which (extension, context-takeover) combinations keep every library call on a live object *)
   Definition end_safe (k : end_kind) (start_nct nct : bool) : bool :=
